@@ -204,7 +204,7 @@ fn packet(spec: &PacketSpec, neighbours: &[PacketSpec], position: usize, st: &mu
     Ok(())
 }
 
-fn c19_oracle(c: &ThirdCase, st: &mut Stats) -> Verdict {
+pub(crate) fn c19_oracle(c: &ThirdCase, st: &mut Stats) -> Verdict {
     match c {
         ThirdCase::Helper { family, padding, count, words, fill } => helper(*family, *padding, *count, *words, *fill, st),
         ThirdCase::Frame { family, bytes } => frame(*family, &bytes.0, st),
